@@ -93,7 +93,10 @@ def run(ctx):
 
     ev = sum(r["evaluations"] for r in ctx.harness_runs)
     nt = sum(r["distinct_nontrivial"] for r in ctx.harness_runs)
+    import endpoint_job
+    ep = endpoint_job.run_endpoint(ctx)
     return ctx.finish("model_checking", {
+        "endpoint_composition": ep,
         "states": states, "transitions": trans,
         "traces_validated_against_impl": lists + traces_ok,
         "replayed_behaviours": lists, "recorded_traces": traces_ok, "events_validated": trace_events if traces_ok else 0,
